@@ -173,7 +173,8 @@ CHECKS["C01"] = (
     "in slot 0; every loop nest of make_AAinv / make_bBBinv / likelihood_worker computes its closed form (sums in loop order; structured mirror = "
     "generated term by conversion); read in a MathComp field these are Ainv = Lambda^-1 + M^T W M, B = W^-1 + M Lambda M^T, Binv = W - W M Y "
     "M^T W, chi^2 = r^T Binv r, so by Woodbury the returned value is -1/2 (r^T B^-1 r + sum ln(2 pi |U_ii|)) with B^-1 a two-sided inverse "
-    "(C01_marginal_is_gaussian), given that the inversion oracle returns a right inverse. Assumed: the LU oracle's diagonal gives ln|det B| "
+    "(C01_marginal_is_gaussian), given that the inversion oracle returns a right inverse; over Coq's reals (C01_real_value, Props/C01r.v, libc log = ln) "
+    "that value IS ln N(y | M mu, B) = -1/2 (r^T B^-1 r + n ln 2 pi + ln det B) when the LU diagonal multiplies to det B > 0. Assumed: the LU oracle's diagonal gives ln|det B| "
     "(LAPACK contract), oracles succeed, IEEE rounding. Per run Coq additionally certifies every generated input end to end (exact rational "
     "equality of chi^2, |det B|, B, B^-1, a, Ainv with the closed form from a junk initial state; certified-interval equality of ll) and compares "
     "the generated model with the rebuilt binary (ll through TheJoker.marginal_ln_likelihood incl. mixed-jitter batches, a / Ainv buffers).",
@@ -208,8 +209,8 @@ CHECKS["C04"] = (
     "survey indicators, dt, dt^2..) . (v0, offsets, v1..) equals the reconstructed orbit (Kepler term + Horner polynomial at t_ref) plus the "
     "observation's own survey offset, for every poly_trend and number of offsets; chi^2_lik(x) + chi^2_prior(x) = chi^2_post(x) + chi^2_marg for "
     "EVERY x over any field and all dimensions; det B det A = det C_s det Lambda; over R those give ln N(marg) = ln N(lik) + ln N(prior) - ln N(post). "
-    "Partial: the algebraic premises are proved over MathComp fields and are premises of the real-number theorem (no MathComp structure on R "
-    "installed). Per run Coq evaluates check_bayes on every generated problem for a posterior draw returned by rejection_sample and a hand-built row: "
+    "C04_bayes_identity_real (Props/C04r.v) discharges the algebraic premises at R through a MathComp field structure on Coq's reals "
+    "(Base/Rstruct.v): the identity holds for real matrices of every dimension and every x. Per run Coq evaluates check_bayes on every generated problem for a posterior draw returned by rejection_sample and a hand-built row: "
     "get_orbit(i).radial_velocity(t) (+ own offset) = M x; ln_unmarginalized_likelihood = Gaussian data term with sigma^2 + s^2; the identity on the "
     "implementation's own two log-likelihood numbers; the exact rational identities; trend_M rows = (1, indicators, dt^i); samples.t_ref = data t_ref.",
     "Trusted: as C01; twobody's KeplerOrbit/PolynomialRVTrend evaluate the elements they are given (values at the data epochs are table inputs); "
@@ -224,7 +225,7 @@ CHECKS["C07"] = (
     "the generated model and the exact closed form, Jacobian relation between twins certified by Coq-Interval",
     "Proved: re-expressing any quantity in an equivalent unit leaves the value the kernel receives unchanged and unpack(pack) is the identity; under a "
     "change of the kernel's velocity unit by c != 0, for every field and all n, k: B -> c^2 B, B^-1 -> c^-2 B^-1, chi^2 unchanged, det B -> c^(2n) det "
-    "B, A^-1 -> c^-2 A^-1 and a -> c a; over R ln N changes by exactly -n ln c; adding one constant to every ln-likelihood leaves accept_idx unchanged "
+    "B, A^-1 -> c^-2 A^-1 and a -> c a; over R ln N changes by exactly -n ln c (C07_jacobian_real, Props/C07r.v: for real matrices of every dimension, no premise beyond c > 0 and det B > 0); adding one constant to every ln-likelihood leaves accept_idx unchanged "
     "for every decision oracle that depends on the value of ll_i - max only; the generated __init__ converts P0 to days. Per run: each base problem "
     "and its four twins (data km/s<->m/s; all prior scales, sigma_K0, max_K in the other velocity unit and trend terms per yr<->d; P0 and the period "
     "prior in yr/d/h; prior-sample columns in yr/deg/other velocity unit) are run on the implementation; every twin is compared with the generated "
